@@ -3,7 +3,7 @@ import struct
 from .. import core
 from ..core import Suite
 
-LEAN_TARGETS = ['Uds.Props.C10', 'Uds.Props.C05']
+LEAN_TARGETS = ['Uds.Props.C10', 'Uds.Props.C10Hist', 'Uds.Props.C05']
 ASSUMPTIONS = [
     'exact comparison with the model uses server values that are multiples of 125 ms (P2) / 25 (P2* field) and configuration times that are multiples '
     'of 2^-10 s, so every float operation is exact; arbitrary 16-bit pairs are checked on the real client against a/1000 and b*10/1000 directly',
